@@ -7,16 +7,14 @@
   (harness/extract/locktable.py, regenerated from the source before every build) and re-proved
   by `decide` on every run.
 
-  FULL statement of the property on the model:
+  FULL statement of the property on the model, proved below for MemoryFS:
 
-      ∀ calls s, Linearizable tableImpl calls s
+      memoryfs_linearizable : ∀ calls s, Linearizable tableImpl calls s
 
-  Proved as `memoryfs_linearizable_partial` for every operation of `Ref.Op` except the six info
-  readers that go through `MemoryFS.getinfo` (the strengthened extractor — entry variables — shows
-  that `getinfo` reads the entry's fields after releasing the lock; open finding with patch).
-  The mutator part became true
-  with three repairs of the library — `MemoryFS.removedir` (0e32556), `FS.readbytes`/`FS.writebytes`
-  (feefeca), `FS.move` (652becf); `FS.readtext`/`FS.writetext` (a9b2b2a) followed — each of which is pinned here by a table theorem and a
+  (every operation of `Ref.Op`, mutators and queries, any number of threads, any tree, any
+  schedule).  It became true with the repairs of the library — `MemoryFS.removedir` (0e32556),
+  `FS.readbytes`/`FS.writebytes` (feefeca), `FS.move` (652becf), `FS.readtext`/`FS.writetext`
+  (a9b2b2a), `MemoryFS.getinfo` (0b00a5c) — each of which is pinned here by a table theorem and a
   `…_repaired` regression theorem; the races they closed are kept in `FsProofs/C08Model.lean` as
   counterexamples of the lock-free variants (`…_without_lock_counterexample`).
 -/
@@ -109,28 +107,24 @@ def opMethods : List String :=
    "makedir", "makedirs", "writebytes", "appendbytes", "create", "touch", "settimes", "openbin",
    "remove", "removedir", "removetree", "move", "copy", "movedir", "copydir"]
 
-/-- the queries that go through `MemoryFS.getinfo`.  `getinfo` looks the entry up under the lock
-(`_get_dir_entry`) but builds the `Info` from the entry's fields (`to_info`: name, size, times)
-AFTER releasing it, so it is two atomic pieces: `getinfo(f) ‖ move(f, g)` can return an Info named
-`g` for the path `f` (open finding `MemoryFS.getinfo-not-atomic`, patch
-findings/C08-memoryfs-getinfo-outside-lock.patch).  With the patch `getinfo` becomes one locked
-block and this list can be emptied. -/
-def infoReaders : List String := ["getinfo", "exists", "isdir", "isfile", "getsize", "gettype"]
-
 /-- TABLE THEOREM: on MemoryFS every method of the `Ref.Op` language is one atomic piece — one
-locked block, or a single call that ends (through the table) in one locked block — except, at
-most, the info readers above (holds before and after the getinfo patch; any other method
-losing its lock breaks it) -/
-theorem op_methods_atomic_except_info_readers :
-    ((opMethods.filter fun m => !atomicIn lockTable lockBases 6 "MemoryFS" m).all infoReaders.contains) = true := by
-  decide +kernel
+locked block, or a single call that ends (through the table) in one locked block (`exists → getinfo`,
+`getsize → getdetails → getinfo`, `isempty → scandir`, `settimes → setinfo`).  No exception since
+fix 0b00a5c put `getinfo`'s lookup and `to_info` under the lock. -/
+theorem every_op_method_atomic :
+    ∀ m ∈ opMethods, atomicIn lockTable lockBases 6 "MemoryFS" m = true := by decide +kernel
 
-/-- TABLE THEOREM: outside `__init__`/`close`, the only MemoryFS method that touches an entry
-variable AT ALL (even a plain field read) without the lock is `getinfo`; no generator body, no
-lookup result is used after the `with self._lock:` block anywhere else (this is what catches a
-`scandir` whose `get_entry`/`to_info` loop is moved out of the lock) -/
-theorem mem_unlocked_entry_use_only_in_getinfo :
-    (lockTable.all fun e => !(e.cls == "MemoryFS" && !["__init__", "close", "getinfo"].contains e.method) ||
+/-- REGRESSION (fix 0b00a5c): `MemoryFS.getinfo` is one locked block -/
+theorem mem_getinfo_single_locked :
+    shapeOf lockTable lockBases "MemoryFS" "getinfo" = .singleLocked := by decide +kernel
+
+/-- TABLE THEOREM: outside `__init__`/`close`, NO MemoryFS method touches an entry variable (a
+local holding a looked-up `_DirEntry`) at all — not even a plain field read — without the lock; no
+generator body, no lookup result is used after the `with self._lock:` block (this is what catches
+a `scandir` whose `get_entry`/`to_info` loop is moved out of the lock, and what `getinfo` violated
+before 0b00a5c) -/
+theorem mem_no_unlocked_entry_use :
+    (lockTable.all fun e => !(e.cls == "MemoryFS" && !["__init__", "close"].contains e.method) ||
       !e.body.unlockedEntryUse) = true := by decide +kernel
 
 /-- TABLE THEOREM: the implementation description the model runs with — everything atomic -/
@@ -141,28 +135,15 @@ theorem table_impl :
 theorem table_impl_all_atomic (c : Op) : isAtomic tableImpl c = true := by
   rw [table_impl]; cases c <;> rfl
 
-/-- the calls covered by the theorem: every operation of `Ref.Op` except the info readers -/
-def coveredOp : Op → Bool
-  | .getinfo _ | .exists_ _ | .isdir _ | .isfile _ | .getsize _ | .gettype _ => false
-  | _ => true
-
-/-- PARTIAL.  FULL statement (true of the model once `MemoryFS.getinfo` holds the lock, see
-`infoReaders`):  `∀ calls s, Linearizable tableImpl calls s`.
-Proved: any number of concurrent calls of the covered operations (all mutators incl.
-`writebytes`/`move`/`removedir`, and `listdir`, `isempty`, `readbytes`) on one MemoryFS, from
-any tree, under every schedule, are linearizable.  Excluded, explicitly: `getinfo`, `exists`,
-`isdir`, `isfile`, `getsize`, `gettype` — the table shows `getinfo` to be two atomic pieces.
+/-- **FULL**: any number of concurrent calls of ANY operations of the FS API (`Ref.Op`: every
+mutator and every query, incl. `getinfo`/`exists`/`isdir`/`isfile`/`getsize`/`gettype`) on one
+MemoryFS, from any tree, under every schedule, are linearizable: per-call results and final tree
+are those of some sequential order.  That every operation really is one atomic piece of the real
+code is what `every_op_method_atomic`, `mem_mutators_single_segment`, `base_compound_single_segment`
+and `mem_no_unlocked_entry_use` re-prove from the generated table on every run.
 (`Op.close` is modelled as an atomic flag write; for the real code `close()` concurrent with
 calls is outside the claim.) -/
-theorem memoryfs_linearizable_partial (calls : List Op) (s : State)
-    (_h : ∀ c ∈ calls, coveredOp c = true) : Linearizable tableImpl calls s :=
-  single_locked_segment_linearizable tableImpl calls s
-    (fun c _ => segments_of_atomic tableImpl c (table_impl_all_atomic c))
-
-/-- the model itself (every `Ref.Op` one locked block) is linearizable without exception; what
-the hypothesis of `memoryfs_linearizable_partial` restricts is the part of it the generated table
-backs for the real code -/
-theorem conc_model_all_atomic_linearizable (calls : List Op) (s : State) : Linearizable tableImpl calls s :=
+theorem memoryfs_linearizable (calls : List Op) (s : State) : Linearizable tableImpl calls s :=
   single_locked_segment_linearizable tableImpl calls s
     (fun c _ => segments_of_atomic tableImpl c (table_impl_all_atomic c))
 
@@ -175,14 +156,14 @@ theorem memoryfs_no_deadlock (calls : List Op) (s : State)
 example : Linearizable tableImpl
     [.removedir "d".toList, .writebytes "d/x".toList [1], .move "f".toList "d/f".toList false, .readbytes "f".toList]
     { root := .dir [("d".toList, .dir []), ("f".toList, .file [1])], closed := false } :=
-  memoryfs_linearizable_partial _ _ (by decide)
+  memoryfs_linearizable _ _
 
 /-! ### the repaired races (regression theorems; the lock-free variants are counterexamples in
 `C08Model.lean`) -/
 
 /-- fix 0e32556: `removedir(d) ‖ writebytes(d/x)` -/
 theorem memfs_removedir_race_repaired : Linearizable tableImpl raceCalls raceTree :=
-  memoryfs_linearizable_partial _ _ (by decide)
+  memoryfs_linearizable _ _
 
 /-- …and, concretely, every maximal schedule of the model the table now yields is linearizable
 (two runs are left: one per order) -/
@@ -193,21 +174,34 @@ theorem memfs_removedir_race_repaired_runs :
 
 /-- fix 652becf: `move(a, b, overwrite=False) ‖ writebytes(b)` -/
 theorem fs_move_check_then_act_repaired : Linearizable tableImpl moveCalls moveTree :=
-  memoryfs_linearizable_partial _ _ (by decide)
+  memoryfs_linearizable _ _
 
 /-- fix feefeca: `writebytes(f, [1]) ‖ writebytes(f, [2,3])` -/
 theorem memfs_writebytes_race_repaired : Linearizable tableImpl tornCalls tornTree :=
-  memoryfs_linearizable_partial _ _ (by decide)
+  memoryfs_linearizable _ _
 
 theorem memfs_writebytes_race_repaired_runs :
     ((initCfg tableImpl tornTree tornCalls).allRuns).all (fun r => r.2.done && linOk tornCalls tornTree r.2) = true := by
   decide +kernel
 
+/-- fix 0b00a5c: `getinfo(f) ‖ move(f, g)` no longer describes the renamed entry -/
+theorem memfs_getinfo_race_repaired :
+    Linearizable tableImpl [.getinfo "f".toList, .move "f".toList "g".toList false]
+      { root := .dir [("f".toList, .file [1, 2])], closed := false } :=
+  memoryfs_linearizable _ _
+
+theorem memfs_getinfo_race_repaired_runs :
+    ((initCfg tableImpl { root := .dir [("f".toList, .file [1, 2])], closed := false }
+        [.getinfo "f".toList, .move "f".toList "g".toList false]).allRuns).map
+      (fun r => (r.1, r.2.locs.map (·.out))) =
+    [([0, 0, 0, 1, 1, 1], [some (.ok (.info "f".toList false 2)), some (.ok .unit)]),
+     ([1, 1, 1, 0, 0, 0], [some (.err .ResourceNotFound), some (.ok .unit)])] := by decide +kernel
+
 /-- fix feefeca: `readbytes(f) ‖ writebytes(f, new)` no longer returns the truncated file -/
 theorem memfs_readbytes_race_repaired :
     Linearizable tableImpl [.readbytes "f".toList, .writebytes "f".toList [9]]
       { root := .dir [("f".toList, .file [1, 2])], closed := false } :=
-  memoryfs_linearizable_partial _ _ (by decide)
+  memoryfs_linearizable _ _
 
 /-! ## 3. lock order / deadlock -/
 
@@ -232,6 +226,6 @@ theorem unknown_bodies_listed :
 
 /-- with the lock around the check-then-act the same three calls are linearizable (what the patch buys) -/
 example : Linearizable tableImpl [.removedir "d".toList, .makedir "d/x".toList false] raceTree :=
-  memoryfs_linearizable_partial _ _ (by decide)
+  memoryfs_linearizable _ _
 
 end Fs.C08
